@@ -421,7 +421,7 @@ impl Monitor for C09 {
          ASCII) are placed in initialisers (one or several per line), adjacent-literal concatenations, array-of-pointer tables, call arguments, \
          pointer assignments and asm statements, plus character constants. For accepted sources the stored VariableDefinition::Array / Value and \
          size are compared with an independent C literal decoder, and a compiled loop copies one literal into RAM on the emulator. Rejections \
-         are counted by message. non-trivial = accepted and compared"
+         are counted by message. Every fifth case has CR-LF line ends; the size recorded for every literal (named or cctmpN) must be its byte count. non-trivial = accepted and compared"
             .into()
     }
     fn assumptions(&self) -> Vec<String> {
